@@ -23,7 +23,7 @@ INVARIANTS = ["NoBlocked", "NoTimeout", "ExactlyOnceInOrder", "ReadersOK", "Read
               "EndComplete", "CloseReturns"]
 TIMEOUT_MS = 4000          # per API call / per owed read; doubled for the confirmation run in isolation
 HEAP = "3g"
-CHUNK_LINES = 120000       # trace lines per TLC process in J3
+CHUNK_LINES = 45000        # trace lines per TLC process in J3
 MAX_STUCK = 3              # after this many runs with a stuck call / missing owed event stop executing more
 
 
